@@ -218,7 +218,7 @@ func runC01(c *eng.Ctx) {
 	}
 
 	// ---- R5 enableKubeEventCb
-	r5 := c.Rule("C01.R5", "B+A+C", "enableKubeEventCb: under eventBufLock sets the flag, replays eventBuf in ascending order through putEvent before clearing it; nobody else sets the flag (informers start locked)", 4)
+	r5 := c.Rule("C01.R5", "B+A+C", "enableKubeEventCb: under eventBufLock sets the flag, replays eventBuf in ascending order through putEvent before clearing it; nobody else sets the flag (informers start locked)", 5)
 	runC01R5(c, r5)
 
 	// ---- R7 who may call Snapshot
@@ -350,8 +350,17 @@ func runC01R5(c *eng.Ctx, r *eng.RuleCtx) {
 	// (a) the replay loop
 	var loop *ast.RangeStmt
 	eng.InspectNoLit(f.Decl.Body, func(n ast.Node) bool {
-		if rs, ok := n.(*ast.RangeStmt); ok && eng.IsField(info, rs.X, eventBuf) {
-			loop = rs
+		if rs, ok := n.(*ast.RangeStmt); ok {
+			if eng.IsField(info, rs.X, eventBuf) {
+				loop = rs
+			} else if v, isV := eng.SelObj(info, rs.X).(*types.Var); isV && !v.IsField() {
+				// a local alias of the buffer taken earlier (saved := ei.eventBuf)
+				for _, e := range eng.AssignedExprs(info, f.Decl.Body, v) {
+					if eng.IsField(info, e, eventBuf) {
+						loop = rs
+					}
+				}
+			}
 		}
 		return true
 	})
@@ -371,6 +380,19 @@ func runC01R5(c *eng.Ctx, r *eng.RuleCtx) {
 		return false
 	}
 	r.Check(loopBodyMustPass(g, loop, isPut) && loopNoEarlyExit(g, loop), f.Key+" replay-loop", loop.Pos(), "every iteration of the replay loop calls putEvent(element)", "an iteration of the replay loop can finish without putEvent(element): a buffered event is dropped")
+	// (a') the replay happens inside the critical section: a direct delivery (which reads the flag under the same lock)
+	// cannot overtake the buffered events
+	bufLock := p.Field(pkgKem, "resourceInformer", "eventBufLock")
+	la := p.Locks()
+	for _, n := range g.Nodes {
+		if !isPut(n) {
+			continue
+		}
+		st := la.StateAtNode(n)
+		_, held := st[bufLock]
+		r.Check(held, f.Key+" replay-under-lock", n.Node.Pos(), "buffered events are replayed while eventBufLock is held",
+			"buffered events are replayed after eventBufLock was released: an informer callback that arrives during the replay sees the flag already set and delivers its event directly, overtaking the older buffered events of the same object (per-object order is lost)")
+	}
 	// (b) the clear comes after the loop, the flag store before/with it, both in the function
 	var clear, setFlag *eng.GNode
 	for _, n := range g.Nodes {
@@ -901,6 +923,34 @@ func runC01R10(c *eng.Ctx, r *eng.RuleCtx) {
 			"unlock is control-dependent on IsSynchronization() && Status==Success and covers every MonitorID",
 			fmt.Sprintf("the unlock in taskHandleHookRun is not `for every MonitorID, only when the task is a Synchronization and res.Status == Success` (onlyOnSuccess=%v onlyForSynchronization=%v everyMonitorID=%v)", succ, isSync, loopOK))
 	}
+	// the Synchronization decision is taken on the task's own contexts: IsSynchronization() inspects BindingContext[0],
+	// which combining/compaction may replace (a grouped Synchronization context followed by an Event of the same group is
+	// compacted away), so it must not be evaluated after hookMeta.BindingContext was overwritten.
+	bcField := p.Field(pkgMeta, "HookMetadata", "BindingContext")
+	var stores []*eng.GNode
+	for _, n := range g.Nodes {
+		if as, ok := n.Node.(*ast.AssignStmt); ok {
+			for _, l := range as.Lhs {
+				if eng.IsField(info, l, bcField) {
+					stores = append(stores, n)
+				}
+			}
+		}
+	}
+	late := ""
+	var latePos token.Pos = f.Decl.Pos()
+	if len(stores) > 0 {
+		reach := g.Reach(eng.Query{From: stores})
+		for n := range reach {
+			if len(g.CallsAt(n, isObj(isSyncM))) > 0 {
+				late = g.Describe(n)
+				latePos = n.Node.Pos()
+			}
+		}
+	}
+	r.Check(late == "", final+" sync-decision-before-combine", latePos, "IsSynchronization() is evaluated only before the binding contexts are replaced by the combined ones",
+		"IsSynchronization() is evaluated after hookMeta.BindingContext was replaced by the combined/compacted contexts ("+late+"): when the Synchronization context was compacted away the task no longer looks like a Synchronization, the unlock is skipped and the monitor stays locked for ever")
+
 	// the combined task carries the monitor ids of all merged tasks
 	combMon := p.Field(pkgOp, "CombineResult", "MonitorIDs")
 	okFlow := false
